@@ -82,6 +82,10 @@ def defuse_xml(fp: IOType, rewind: bool = True) -> IOType:
                 break
     except SAXParseException:
         pass  # the purpose is to defuse not to check xml source syntax
+    except LookupError as err:
+        if isinstance(err, (KeyError, IndexError)):
+            raise
+        # An unknown encoding in the XML declaration: the parsing fails for the same reason
     except OSError as err:
         raise XMLResourceOSError(err)
 
